@@ -86,6 +86,20 @@ def run_job(job):
         "decisions": 0,
         "optional": job.get("optional", False),
     }
+    import signal
+
+    class JobWall(BaseException):
+        pass
+
+    def _alarm(signum, frame):
+        raise JobWall()
+
+    hard = int(float(os.environ.get("VERIF_JOB_HARD_WALL", job.get("hard_wall_s", 900))))
+    try:
+        signal.signal(signal.SIGALRM, _alarm)
+        signal.alarm(hard)
+    except (ValueError, OSError):
+        pass
     try:
         from symx.core import Engine
         import symx.core as core
@@ -225,8 +239,15 @@ def run_job(job):
                     out["validated"] += 1
                 if len(out["samples"]) < 2:
                     out["samples"].append({"inputs": r.model.get("inputs"), "trace": _tr(r.trace), "observations": want})
+    except JobWall:
+        out["problems"].append({"kind": "job-wall-limit", "error": "job still running after %d s (hard per-job limit): stopped, nothing it explored is counted" % hard})
     except BaseException as ex:  # noqa
         out["problems"].append({"kind": "job-crash", "error": "".join(traceback.format_exception(type(ex), ex, ex.__traceback__)[-8:])})
+    finally:
+        try:
+            signal.alarm(0)
+        except (ValueError, OSError):
+            pass
     out["wall"] = time.time() - t0
     return out
 
@@ -298,6 +319,7 @@ def main(mod):
     for j in jobs:
         j.setdefault("module", mod.__name__)
         j.setdefault("xcheck_every", xk)
+        j.setdefault("hard_wall_s", 900 if a.tier == "quick" else 3600)
         j.setdefault("xcheck_ms", xms)
     if a.only:
         jobs = [j for j in jobs if any(p_ in j["label"] for p_ in a.only.split("|"))]
@@ -435,6 +457,9 @@ def finish(mod, a, seed, t0, jobs, results, skipped):
     if rc == 0 and inconclusive:
         rc = 2
     wall = time.time() - t0
+    if os.environ.get("VERIF_DUMP"):
+        with open(os.environ["VERIF_DUMP"], "w") as fh:
+            json.dump({"problems": problems, "unconfirmed": unconfirmed}, fh, indent=1, default=str)
     for l in lines:
         print(l)
     for l in inconclusive:
